@@ -75,3 +75,22 @@ impl<T> Trie<T> {
         self.inner.is_empty()
     }
 }
+
+/// Verification hook (off unless built with `--cfg kanata_verif`): the stored (key, value) pairs,
+/// so that an external harness can serialise the sequence table.
+#[cfg(kanata_verif)]
+impl<T: Clone> Trie<T> {
+    pub fn verif_entries(&self) -> Vec<(Vec<u16>, T)> {
+        self.inner
+            .iter()
+            .map(|(k, v)| {
+                (
+                    k.chunks(2)
+                        .map(|b| u16::from_ne_bytes([b[0], b[1]]))
+                        .collect(),
+                    v.clone(),
+                )
+            })
+            .collect()
+    }
+}
